@@ -15,6 +15,10 @@ fn main() {
         "C19" => vh::c19::main(mode),
         "C17" => vh::c17::main(mode),
         "C01" => vh::c01::main(mode),
+        "C02" => vh::c02::main(mode),
+        "C14" => vh::c14::main(mode),
+        "C13" => vh::c13::main(mode),
+        "C15" => vh::c15::main(mode),
         _ => {
             eprintln!("unknown property {id}");
             2
